@@ -1,6 +1,7 @@
 import GoatProofs.Lemmas.C11MsgCrit
 import GoatProofs.Lemmas.C11Round
 import GoatProofs.Lemmas.C11Pos
+import Goat.Model.HeaderHist
 import GoatProofs.Lemmas.C11CritIff
 import GoatProofs.Lemmas.C11PosJwe
 /-
@@ -27,6 +28,16 @@ theorem tables_match_spec :
     sameRows jwe.encRows (decRows jwe.decSteps) = true ∧
     accessorOK jwsParams api jws.getters jws.setters = true ∧
     accessorOK jweParams api jwe.getters jwe.setters = true := by
+  decide
+
+/-- Regenerated fact (translator/headers.go → `Gen.HeaderTables`): every registered parameter has
+    exactly ONE encodeHeader site, ONE decodeHeader site (both under the same, registered JSON
+    member name and on the parameter's own field), ONE getter and ONE setter; the only additional
+    writer is jws `SetBase64`, which also maintains `crit`.  No member name and no field occurs in a
+    second row of a table, and there is no getter beyond the registered parameters. -/
+theorem one_site_per_parameter :
+    oneSiteEach jwsParams jws.encRows (decRows jws.decSteps) jws.getters jws.setters [("SetBase64", "crit")] = true ∧
+    oneSiteEach jweParams jwe.encRows (decRows jwe.decSteps) jwe.getters jwe.setters [] = true := by
   decide
 
 /-- every name on goat's `knownParams` lists is a parameter the package really decodes (has a
@@ -408,6 +419,97 @@ example (o : Oracle) : ∃ h, (jwsDecodeHeader [("crit", .arr [.str "b64", .str 
 example (o : Oracle) : ∃ h, (jwsDecodeHeader [("crit", .arr [])]).run o = .ok h ∧ h.crit = [] := ⟨_, rfl, rfl⟩
 example (o : Oracle) : ∃ h, (jweDecodeHeader [("crit", .arr [.str "p2c", .str "p2c"])]).run o = .ok h ∧
     h.crit = ["p2c", "p2c"] := ⟨_, rfl, rfl⟩
+
+/-! ## histories: one header object, a sequence of API calls -/
+
+/-- MarshalJSON does not change any header object: the store after `.marshal i` is the store before
+    (only the output list grows), for jws and jwe, whatever the oracle answers. -/
+theorem marshal_keeps_state (o : Oracle) (isJWE : Bool) (st st' : HState) (i : Nat)
+    (h : (hstep isJWE st (.marshal i)).run o = .ok st') :
+    st'.hdrs = st.hdrs ∧ ∃ out, st'.outs = st.outs ++ [out] := by
+  simp only [hstep] at h
+  cases hi : st.hdrs[i]? with
+  | none => simp [hi] at h
+  | some hd =>
+    simp only [hi] at h
+    unfold PO.run at h
+    simp only [Prog.run_bind] at h
+    cases hr : Prog.run o (PO.attempt (if isJWE = true then jweEncodeHeader hd else jwsEncodeHeader hd)).prog with
+    | ok out => simp [hr] at h; exact ⟨by rw [← h], out, by rw [← h]⟩
+    | err c => simp [hr] at h
+    | panic c => simp [hr] at h
+
+/-- Regenerated fact (f969ad0): every setter starts by deleting exactly its own registered member
+    name from `Raw` — SetAlgorithm "alg", …, SetBase64 "b64" — and nothing else; a setter that forgets
+    the delete, deletes another name, or touches `Raw` in any other way breaks this `decide` (or the
+    translator). -/
+theorem setters_delete_own_name :
+    settersDeleteOwn jwsParams api jws.setterDeletes = true ∧
+    settersDeleteOwn jweParams api jwe.setterDeletes = true ∧
+    plainSettersDelete jws.encRows jws.setters jws.setterDeletes ["nb64"] = true ∧
+    plainSettersDelete jwe.encRows jwe.setters jwe.setterDeletes [] = true ∧
+    deletesOf jws.setterDeletes "SetCritical" = ["crit"] ∧ deletesOf jws.setterDeletes "SetBase64" = ["b64"] ∧
+    deletesOf jwe.setterDeletes "SetCritical" = ["crit"] := by
+  decide
+
+theorem plainSetter_deletes {rows : List Row} {setters dels : List (String × List String)} {skip : List String}
+    (hp : plainSettersDelete rows setters dels skip = true) {r : Row} (hr : r ∈ rows) {f : Fld}
+    (hf : Fld.ofString r.field = some f) (hs : r.field ∉ skip) :
+    deletesOf dels (plainSetter setters f) = [r.key] := by
+  have := List.all_eq_true.1 hp r hr
+  simp only [Bool.or_eq_true, List.contains_eq_mem, decide_eq_true_eq, hs, false_or, hf, beq_iff_eq] at this
+  exact this
+
+/-- **A setter called after a decode is effective.**  Let `h` be any header object (in particular
+    one returned by UnmarshalJSON, whose `Raw` holds every decoded member) and let the plain setter
+    of field `f` be called with `v` (`afterSetter` ∘ `Header.set`, the model of the Go setter).  Then
+    (i) the getter reports `v` and every other getter is unchanged; (ii) MarshalJSON emits under the
+    parameter's member name exactly what the encoder row makes of the new field value — nothing when
+    `v` is the zero value — no longer the decoded member; (iii) every other member of `Raw`, i.e.
+    every name never touched, keeps its decoded value.  jws and jwe. -/
+theorem setter_after_decode_effective (o : Oracle) (isJWE : Bool) (h h1 : Header) (f : Fld) (v : FVal)
+    (hset : h.set f v = some h1) (r : Row)
+    (hr : r ∈ (if isJWE then jwe.encRows else jws.encRows)) (hf : Fld.ofString r.field = some f)
+    (hskip : isJWE = false → r.field ≠ "nb64") :
+    let h' := afterSetter isJWE f h1
+    h'.get f = v ∧ (∀ g, g ≠ f → h'.get g = h.get g) ∧
+    (∀ out, ((if isJWE then jweEncodeHeader h' else jwsEncodeHeader h')).run o = .ok (.obj out) →
+      ∃ w, (emit h' r).run o = .ok w ∧ Wire.lookup r.key out = w) ∧
+    (∀ k, k ≠ r.key → Wire.lookup k h'.raw = Wire.lookup k h.raw) := by
+  intro h'
+  have hkeys : h'.raw = dropKeys [r.key] h.raw := by
+    cases isJWE with
+    | true =>
+      have := plainSetter_deletes setters_delete_own_name.2.2.2.1 hr hf (by simp)
+      simp only [h', afterSetter, ↓reduceIte, this, raw_set hset]
+    | false =>
+      have := plainSetter_deletes setters_delete_own_name.2.2.1 hr hf (by simpa using hskip rfl)
+      simp only [h', afterSetter, Bool.false_eq_true, ↓reduceIte, this, raw_set hset]
+  have hget : ∀ g, h'.get g = h1.get g := fun g => by cases g <;> rfl
+  refine ⟨by rw [hget]; exact get_set_same hset, fun g hg => by rw [hget]; exact get_set_other hset hg, ?_, ?_⟩
+  · intro out henc
+    have hl : Wire.lookup r.key h'.raw = none := by rw [hkeys, lookup_dropKeys]; simp
+    cases isJWE with
+    | true =>
+      obtain ⟨w, hw, hlk⟩ := ((header_names_registered o h').2 out henc).1 r hr
+      exact ⟨w, hw, by rw [hlk, hl]; cases w <;> rfl⟩
+    | false =>
+      obtain ⟨w, hw, hlk⟩ := ((header_names_registered o h').1 out henc).1 r hr
+      exact ⟨w, hw, by rw [hlk, hl]; cases w <;> rfl⟩
+  · intro k hk
+    rw [hkeys, lookup_dropKeys]
+    simp [hk]
+
+/-- concretely: decode {"kid":"a","b64":false,"crit":["b64"]}, then SetKeyID(""), SetBase64(true),
+    SetCritical(nil): the getters say unset / true / empty and MarshalJSON now emits none of the three -/
+example (o : Oracle) :
+    ∃ st, (hrun false [.unmarshal 0 [1], .set 0 .kid (.s ""), .setBase64 0 true, .setCritical 0 [], .marshal 0]
+        { hdrs := [Header.zero], outs := [] }).run
+        (fun q => if q.name = "json.decodeMap" then
+          .obj [("b64", .bool false), ("crit", .arr [.str "b64"]), ("kid", .str "a"), ("x-kept", .num "1")] else o q) = .ok st ∧
+      (st.hdrs.map (fun h => (h.kid, h.nb64, h.crit))) = [("", false, [])] ∧
+      st.outs = [.ok (.obj [("x-kept", .num "1")])] :=
+  ⟨_, rfl, rfl, rfl⟩
 
 /-! ## non-vacuity of the placement theorem -/
 
